@@ -287,7 +287,10 @@ def blocks_of(a):
 def product_blocks(sr, A, B):
     """blocks of A.B; (symmray.tensordot drops the charges of free legs that carry no block from the index
     tables of the result, so the products are compared sector by sector, an absent sector being a zero block)"""
-    return blocks_of(sr.tensordot(A, B, 1))
+    try:
+        return blocks_of(sr.tensordot(A, B, 1))
+    except Exception as e:        # the factors cannot even be multiplied: compares unequal to everything (reported with the input)
+        return {('product raises %s: %s' % (type(e).__name__, e),): np.array([np.nan])}
 
 
 def blocks_close(P, Q, exact):
@@ -667,6 +670,11 @@ def real_eval(sr, info):
     cls = sr.FermionicArray if info['fermionic'] else sr.AbelianArray
     x = cls(indices=ixs, charge=tupk(info['charge']), blocks={k: v.copy() for k, v in blocks.items()}, symmetry=info['symmetry'],
             **({'oddpos': 7} if info['fermionic'] else {}))
+    # pending (lazy) signs on the input: the value decomposed is the signed one, nothing else changes
+    lz = info.get('lazy')
+    if info['fermionic'] and lz:
+        x = {'flip0': lambda a: a.phase_flip(0), 'flip1': lambda a: a.phase_flip(1), 'global': lambda a: a.phase_global(),
+             'flip01': lambda a: a.phase_flip(0, 1)}[lz](x)
     xd = blocks_of(x)
     allv = np.sort(np.concatenate(list(sv.values())))
     rank = len(allv)
@@ -738,6 +746,7 @@ def real_stream(ctx, sr, n, st):
                 info = {'oracle': 'real_svd', 'symmetry': case['symmetry'], 'fermionic': case['fermionic'], 'duals': case['duals'],
                         'charge': case['charge'], 'ch0': case['ch0'], 'ch1': case['ch1'],
                         'blocks': [[list(k), v.tolist()] for k, v in blocks.items()], 'cutoff': cut, 'cutoff_mode': mode, 'max_bond': mb,
+                        'lazy': rng.choice([None, 'flip0', 'flip1', 'global', 'flip01']) if case['fermionic'] else None,
                         'call': 'symmray.linalg.svd_truncated(x, cutoff=cutoff, cutoff_mode=cutoff_mode, max_bond=max_bond) with the real svd'}
                 for kind, detail in real_eval(sr, info):
                     out.append((kind, dict(info, detail=detail)))
